@@ -10,3 +10,15 @@ reg("C07", MC, "bounded exhaustive enumeration of a rational (start, extent, spa
     "extent), which is where off-by-one and rounding-direction defects live.",
     "Trusts Python Fractions and numpy float semantics; values between lattice nodes are represented by the absence of further branches "
     "in the code; 4-ulp node tolerance.", "DESIGN.md section 5, C07")
+reg("C08", MC, "bounded exhaustive enumeration of lattice point clouds x block layouts against exact rational block edges",
+    "Every node of a quarter-unit lattice covering the region and one block beyond it (edges, corners, outside points) is labelled by "
+    "the real block_split for every region / shape / spacing / adjust / array form / dyadic frame of a finite family and compared with "
+    "exact rational block membership (either neighbour on a shared edge, per-axis clamping outside). Labelling is a discrete claim, "
+    "so an exact oracle over a lattice that hits every edge is the right strength.",
+    "Trusts Fractions; only the cKDTree path can run (pykdtree is not installed).", "DESIGN.md section 5, C08")
+reg("C17", MC, "exhaustive enumeration of the 5-degree (W, E) lattice with exact arithmetic modulo 360",
+    "All representable (W, E) arcs of the 5-degree lattice (thorough: plus a shifted 2.5-degree lattice and integer/float32 dtypes) x "
+    "latitude bands x coordinate forms are executed; returned bounds, longitudes and verde.inside membership of every lattice longitude "
+    "are compared with exact modular arithmetic. The 175 seam pairs of finding D7 are reported as KNOWN-FINDING; any other pair fails the check.",
+    "Arcs that fit neither convention and widths within 0.01 degree of 360 are outside the quantifier and counted as not compared.",
+    "DESIGN.md section 5, C17")
